@@ -351,7 +351,27 @@ def equivalent(orig, new, f):
     return None
 
 
-def check_case(st, m, rows0, meta0, n, I):
+def raw_of(v, f):
+    return int(round(v * f[2])) - f[3] if f[0] == 'num' else v
+
+
+def allones_with_missing(rows0, fields0, sel):
+    """Is there a numeric/code column whose selected values are the field's all-ones pattern in some subsets and missing in
+    all the others?  (Only a compressed source can hold such a value: minimum + increment.)"""
+    if not sel or any(len(rows0[i]) != len(fields0[i]) for i in sel):
+        return False
+    f0 = fields0[sel[0]]
+    for c, f in enumerate(f0):
+        if f[0] not in ('num', 'code') or f[1] < 2:
+            continue
+        col = [rows0[i][c] for i in sel if c < len(rows0[i])]
+        if None in col and any(v is not None for v in col) and \
+                all(v is None or raw_of(v, f) == all_ones_raw(f[1]) for v in col):
+            return True
+    return False
+
+
+def check_case(st, m, rows0, fields0, meta0, n, I):
     """Evaluate the property on the implementation for one index collection.
     Returns (impl_result_raw_or_tag, problems, info); problems = list of (kind, text, signature extras)."""
     from pybufrkit.errors import PyBufrKitError
@@ -384,7 +404,8 @@ def check_case(st, m, rows0, meta0, n, I):
         m2, fields2 = st['dec'].decode_with_fields(nb)
     except Exception as e:
         problems.append(('decode-raises', 'result of subset(%r) (n=%d) does not decode: %s' % (I[:12], n, type(e).__name__),
-                         {'repeats': repeats, 'exc': type(e).__name__}))
+                         {'repeats': repeats, 'exc': type(e).__name__,
+                          'allones_with_missing': bool(m.is_compressed.value) and allones_with_missing(rows0, fields0, sel)}))
         return data, problems, info
     info['reencoded'] = True
     if m2.n_subsets.value != len(sel):
@@ -461,7 +482,7 @@ def run_source(task):
             data, spec = r
             res['spec'] = spec
         try:
-            m, _ = st['dec'].decode_with_fields(data)
+            m, fields0 = st['dec'].decode_with_fields(data)
         except Exception as e:
             res['skipped'] = 'source does not decode: %s' % type(e).__name__
             return res
@@ -493,7 +514,7 @@ def run_source(task):
     mm = msg_for_model(m, interner)
     impl_out = []
     for lab, I in colls:
-        raw, problems, info = check_case(st, m, rows0, meta0, n, I)
+        raw, problems, info = check_case(st, m, rows0, fields0, meta0, n, I)
         if render_hash(st, m) != before or m.template_data.value.decoded_values_all_subsets != rows0:
             problems.append(('source-modified', 'the source message renders differently after subset(%r) + encode' % (I[:12],), {}))
             before = render_hash(st, m)
